@@ -296,6 +296,88 @@ def run_cases(R, mp, triples, thorough, light=False):
                   "struct-dict-by-name")
 
 
+def positional_one(case, budget=0.5):
+    """implementation side of the positional-call oracle: T.encode(*args), then decode of the bytes
+    followed by other data"""
+    import signal
+    from io import BytesIO
+    T = cc.ty_build(case[1])
+    signal.setitimer(signal.ITIMER_REAL, budget)
+    try:
+        try:
+            bs = T.encode(*case[2])
+        except cc._Hang:
+            return ("hang",)
+        except Exception as e:
+            return ("encerr", cc.exn_code(e))
+        s = BytesIO(bytes(bs) + case[3])
+        try:
+            d = T.decode(s)
+        except cc._Hang:
+            return ("hang",)
+        except Exception as e:
+            return ("decerr", cc.exn_code(e), len(bs))
+        return ("rt", cc.canon(d), s.tell(), len(bs), bytes(bs).hex())
+    finally:
+        signal.setitimer(signal.ITIMER_REAL, 0)
+
+
+def positional_expect(td, args):
+    """(expected decoded value, equivalent single value or None) for an in-domain positional call,
+    None when the arguments are outside the documented domain of that call form"""
+    is_int = lambda z: isinstance(z, int) and not isinstance(z, bool)
+    n = td[1]
+    if n == "DATE_AND_TIME":
+        if len(args) == 2 and is_int(args[0]) and is_int(args[1]) and 0 <= args[0] < 1 << 32 and 0 <= args[1] < 1 << 16:
+            return (args[0], args[1]), (args[0], args[1])
+        return None
+    if n == "STRINGN":
+        if len(args) == 2 and isinstance(args[0], str) and args[1] in (1, 2, 4) and not isinstance(args[1], bool):
+            codec = {1: "iso-8859-1", 2: "utf-16-le", 4: "utf-32-le"}[args[1]]
+            try:
+                units = len(args[0].encode(codec)) // args[1]
+            except UnicodeError:
+                return None
+            if units < 65536:
+                return args[0], (args[0] if args[1] == 1 else None)
+        return None
+    if n == "STRINGI":
+        x = cc.expand(td)
+        if all(cc.py_doc_val(x, a) and not cc.py_devs(x, a) for a in args) and len(args) < 256:
+            return ([a[0] for a in args], [a[2] for a in args], [a[3] for a in args]), None
+    return None
+
+
+def run_positional(R, mp, calls):
+    """positional calls: correspondence, and on the implementation: the call round-trips and gives
+    the same bytes as the single-value form where one exists (DATE_AND_TIME((t, d)), STRINGN(s))"""
+    rng = R.rng
+    cc.corr(R, mp, [c for c in calls if all(cc.modelable(a) for a in c[2])], stream="positional-calls")
+    orc = []
+    for op, td, args in calls:
+        if td[0] == "elem" and td[1] in ("DATE_AND_TIME", "STRINGN", "STRINGI"):
+            e = positional_expect(td, args)
+            if e is not None:
+                orc.append((td, args, bytes(rng.randrange(256) for _ in range(rng.choice([0, 1, 3]))), e))
+    outs = cc.run_impl([("pos", td, args, rest) for td, args, rest, _ in orc], fn=positional_one)
+    single = cc.run_impl([("enc", td, e[1]) for td, _, _, e in orc if e[1] is not None])
+    si = iter(single)
+    for (td, args, rest, (exp, one)), o in zip(orc, outs):
+        R.evaluations += 1
+        cj = {"td": cc.td_to_json(td), "args": [cc.canon_to_json(cc.canon(a)) for a in args], "rest": rest.hex()}
+        cls = "in-domain:positional-call:" + td[1]
+        R.count("oracle_class", "positional:" + td[1])
+        so = next(si) if one is not None else None
+        if o[0] != "rt":
+            _fail(R, "T.encode(*args) / decode of it raised on in-domain arguments", cj, [o[0], cc.CODE_NAMES.get(o[1], o[1]) if len(o) > 1 else ""], "bytes that decode to the value", cls)
+        elif cc.canon_unordered(o[1]) != cc.canon_unordered(cc.canon(exp)) or o[2] != o[3]:
+            _fail(R, "decode(T.encode(*args)) != the value, or wrong consumption", cj, [list(o[1])[:3], o[2], o[3]], list(cc.canon(exp))[:3], cls)
+        elif so is not None and so != ("ok", 0, o[4]):
+            _fail(R, "T.encode(*args) differs from T.encode(value)", cj, o[4], list(so), cls)
+        else:
+            R.count("oracle_outcome", "positional-ok")
+
+
 def run(R, escalate=False):
     thorough = R.tier == "thorough" or escalate
     rng = R.rng
@@ -310,12 +392,20 @@ def run(R, escalate=False):
         corpus = []
         if os.path.isdir(CORPUS):
             for fn in sorted(os.listdir(CORPUS)):
-                if fn.endswith(".json"):
+                if fn.endswith(".json") and fn != "positional.json":
                     for j in json.load(open(os.path.join(CORPUS, fn))):
                         td, v, rest = case_from_json(j)
                         corpus.append((td, v, "corpus", rest))
         R.count("stream", "corpus", len(corpus))
         run_cases(R, mp, corpus, thorough)
+        pos = []
+        pf = os.path.join(CORPUS, "positional.json")
+        if os.path.exists(pf):
+            for j in json.load(open(pf)):
+                pos.append(("enca", cc.td_from_json(j["td"]), tuple(cc.val_from_canon(a) for a in j["args"])))
+        pos += cc.gen_positional_calls(rng, 600 if thorough else 60)
+        R.count("stream", "positional-calls", len(pos))
+        run_positional(R, mp, pos)
         sweeps = leaf_sweeps(rng, thorough)
         R.count("stream", "leaf-sweeps", len(sweeps))
         if thorough:    # exhaustive 16-bit: encode/decode/oracle on all, the full treatment on a sample
@@ -340,6 +430,14 @@ def replay(R, rp):
     if not j:
         R.notes.append("replay file without a failing case: re-running the corpus")
         return run(R)
+    if "args" in j:
+        mp = fw.ModelProc("Codec")
+        try:
+            run_positional(R, mp, [("enca", cc.td_from_json(j["td"]), tuple(cc.val_from_canon(a) for a in j["args"]))])
+        finally:
+            mp.close()
+        R.case(j, True)
+        return
     td, v, rest = case_from_json(j)
     if str(f.get("class", "")).endswith("prefixed-decode"):
         outs = cc.run_impl([("pre", td, v, rest)], fn=oracle_prefixed)
